@@ -124,6 +124,54 @@ PrimFailing(r) ==
   IF f # {} /\ r.nearAxis /\ f \subseteq {"On1", "On2", "Consistent", "GlobalMinimum", "ZeroImpliesCommon"}
   THEN f \cup {"ZONE_NearAxis"} ELSE f
 
+(* ---------------- penetration queries (C07 EPA, C08 MPR): kind = "pen" ----------------
+   Exact tier: both colliders are lattice polytopes; the harness names a facet of the Minkowski difference
+   A (-) B by an integer normal r.fn and offset r.fc and TLC verifies that it is a supporting half-space that
+   contains the origin (FacetOK), so PenDepth <= fc / |fn| is certified; the facet is the closest one of the
+   complete facet list computed by the harness (trusted: scipy's Qhull on integer input).
+   Ticks: EPA 1e-6*L/8, MPR 2e-3*L/8.
+   r.success / r.hit       EPA's success flag / MPR's intersection flag
+   r.depthErr              | |mtv| - PenDepth |                     (EPA, Minimal)
+   r.below                 max(0, PenDepth - depth)                 (MPR, DepthLowerBound; exact tier only)
+   r.residual, r.gap       overlap / gap left after translating the second collider by the returned vector
+   r.posA, r.posB          distance of MPR's contact position to each collider
+   r.unit                  | |direction| - 1 |  (0 allowed when the depth is 0), r.depthNeg
+   r.deep                  the pair overlaps by a witness point at least 2e-3*L inside both (MPR must report a hit) *)
+FacetOK(r) ==
+  /\ r.fc >= 0
+  /\ \A i \in DOMAIN r.VA : \A j \in DOMAIN r.VB : Dot(r.fn, Sub(r.VA[i], r.VB[j])) <= r.fc
+PenClausesEpa == <<"NoException", "ORACLE_FacetInvalid", "SuccessOnPolytopes", "Minimal", "TouchAfterMTV">>
+PenClausesMpr == <<"NoException", "ORACLE_FacetInvalid", "DeepOverlapHit", "DepthNonNegative", "UnitOrZeroDirection",
+                   "ResidualOverlap", "DepthLowerBound", "ContactInBoth", "ResultsStable">>
+PenHolds(c, r) ==
+  LET ok == r.exc = "none" IN
+  CASE c = "NoException"         -> ok \/ (r.exc = "AssertionError" /\ r.algo = "epa" /\ r.smooth)
+    [] c = "ORACLE_FacetInvalid" -> r.exact => FacetOK(r)
+    [] c = "SuccessOnPolytopes"  -> (ok /\ r.exact) => r.success
+    [] c = "Minimal"             -> (ok /\ r.success /\ r.judged) => r.depthErr <= Slack
+    [] c = "TouchAfterMTV"       -> (ok /\ r.success /\ r.judged) => (r.residual <= Slack /\ r.gap <= Slack)
+    [] c = "DeepOverlapHit"      -> (ok /\ r.deep) => r.hit
+    [] c = "DepthNonNegative"    -> (ok /\ r.hit) => ~r.depthNeg
+    [] c = "UnitOrZeroDirection" -> (ok /\ r.hit) => r.unit <= Slack
+    [] c = "ResidualOverlap"     -> (ok /\ r.hit /\ r.judged) => r.residual <= Slack
+    [] c = "DepthLowerBound"     -> (ok /\ r.hit /\ r.exact /\ FacetOK(r)) => r.below <= Slack
+    [] c = "ContactInBoth"       -> (ok /\ r.hit) => (r.posA <= Slack /\ r.posB <= Slack)
+    [] c = "ResultsStable"       -> ~r.prevChanged      \* the arrays returned by the previous query were not overwritten by this one
+(* Named trace pattern for a known finding: the distance query that precedes EPA ended with fewer than four
+   simplex points (r.simplexRows, observed by the harness), so the rows of the simplex handed to EPA are partly
+   uninitialised memory *)
+PenFailing(r) ==
+  LET f == {c \in Range(IF r.algo = "epa" THEN PenClausesEpa ELSE PenClausesMpr) : ~PenHolds(c, r)} IN
+  IF f # {} /\ r.algo = "epa" /\ r.simplexRows < 4 /\ f \subseteq {"Minimal", "TouchAfterMTV", "SuccessOnPolytopes", "NoException"}
+  THEN f \cup {"ZONE_IncompleteSimplex"}
+  ELSE IF f = {"Minimal"} /\ r.algo = "epa" /\ r.exact
+       THEN f \cup {"ZONE_SeparatingNotMinimal"}   \* fourth named pattern: the vector separates exactly (TouchAfterMTV holds) but is longer than the depth
+  ELSE IF f # {} /\ r.algo = "mpr" /\ r.coincident /\ f \subseteq {"ContactInBoth"}
+       THEN f \cup {"ZONE_CoincidentCentres"}      \* second named pattern: both colliders sit at the same frame origin
+  ELSE IF f # {} /\ r.algo = "mpr" /\ f \subseteq {"ContactInBoth"} /\ ((r.exact /\ r.fc = 0) \/ (~r.exact /\ ~r.deep))
+       THEN f \cup {"ZONE_Grazing"}                \* third named pattern: touching pair (certified depth 0) / no deep witness
+       ELSE f
+
 (* ---------------- relations between queries (C12): kind = "pair" ----------------
    two runs of the same query on related scenes: rel = "swap" (arguments exchanged), "rigid" (one rigid motion
    applied to both arguments), "scale" (uniform scaling).  The harness applies the expected transformation to the
